@@ -27,7 +27,7 @@ def testBit (m k : Nat) : Bool := (m / k) % 2 == 1
 def setIfaceAttr (c : Cfg) (creating : Bool) (k v : String) : Option Cfg :=
   let u32max := 4294967295
   match k with
-  | "mtu" => if !creating then none else (parseDec v).bind (fun n => if n < 64 ∨ n > 65535 then none else some { c with mtu := n })
+  | "mtu" => (parseDec v).bind (fun n => if n < 64 ∨ n > 65535 then none else some { c with mtu := n })   -- after creation: only up to the buffer size (checked by the caller)
   | "mac" => (parseFixed v 6).map (fun m => { c with mac := m })
   | "flags" => (parseDec v).bind (fun n => if n > u32max then none else some { c with flags := n })
   | "iftype" => (parseDec v).bind (fun n => if n > u32max then none else some { c with iftype := n })
@@ -98,7 +98,10 @@ def blockStep (w : World) (b : BlockSide) (toks : List String)
     (parseIdx i 8).bind fun I =>
     (b.ifs[I]?.getD none).bind fun rec =>
     let r := attrs.foldl (fun acc t => acc.bind (fun c => (splitKV t).bind (fun (k, v) => setIfaceAttr c false k v))) (some rec.cfg)
-    r.map fun c => (w, { b with ifs := b.ifs.set! I (some { rec with cfg := c }) }, ["ok"], [])
+    r.bind fun c =>
+      -- the interface MTU may change while the daemon runs; the receive buffer keeps the size it was allocated with
+      if c.mtu > rec.img.length then none else
+      some (w, { b with ifs := b.ifs.set! I (some { rec with cfg := c }) }, ["ok"], [])
   | "glob" :: attrs =>
     let r := attrs.foldl (fun acc t => acc.bind (fun g => (splitKV t).bind (fun (k, v) => setGlobAttr g k v))) (some b.glob)
     r.map fun g => (w, { b with glob := g }, ["ok"], [])
